@@ -1,2 +1,86 @@
-(** C06 placeholder *)
-From BBS Require Import Index.Klm.
+(** C06 — Index lookups are sound; entries are displaced oldest-first, never
+    silently.  Statements only; proofs are in Index/KlmProofs.v (+ KlmFrame.v).
+
+    Every theorem is about the model Index/Klm.v of HashingKeyLocationMap for
+    an ARBITRARY key type with decidable equality, an ARBITRARY slot function
+    [slot k a < n] (any hash initialisation, any collisions, any table size n),
+    arbitrary attempt limits [maxGet]/[maxPut], and ALL histories of
+    Put/Get/PopFront/PushBack from the empty table ([run], by induction). *)
+From Coq Require Import List NArith.
+From BBS Require Import Index.Klm Index.KlmProofs.
+
+Section C06.
+  Variable key : Type.
+  Variable key_eqb : key -> key -> bool.
+  Hypothesis key_eqb_spec : forall a b, key_eqb a b = true <-> a = b.
+  Variable n : nat.
+  Variable slot : key -> nat -> nat.
+  Hypothesis slot_lt : forall k a, slot k a < n.
+  Variables maxGet maxPut : nat.
+
+  Notation run := (run key key_eqb slot maxGet maxPut).
+  Notation lookup := (lookup key key_eqb slot maxGet).
+  Notation put := (put key key_eqb slot maxGet maxPut).
+  Notation Reachable := (Reachable key key_eqb n slot maxGet maxPut).
+  Notation Inv := (Inv key n slot).
+
+  (** The probe-order invariant ("everything further along a probe sequence is
+      older"; every record sits at its own slot; no record points beyond the
+      newest block) holds initially and is preserved by Put, by releasing a
+      block and by adding one; hence in every reachable state. *)
+  Theorem invariant_initial : forall lo hi, Inv lo hi (repeat None n).
+  Proof. exact (inv_empty key n slot). Qed.
+
+  Theorem invariant_put : forall lo hi t k l,
+    Inv lo hi t -> valid lo hi l = true -> Inv lo hi (fst (put lo hi t k l)).
+  Proof. exact (put_inv key key_eqb n slot slot_lt maxGet maxPut). Qed.
+
+  Theorem invariant_release : forall lo hi t, Inv lo hi t -> Inv (N.succ lo) hi t.
+  Proof. exact (release_inv key n slot). Qed.
+
+  Theorem invariant_grow : forall lo hi t, Inv lo hi t -> Inv lo (N.succ hi) t.
+  Proof. exact (grow_inv key n slot). Qed.
+
+  Theorem invariant_reachable : forall s, Reachable s -> Inv (lo s) (hi s) (tbl s).
+  Proof. exact (reachable_inv key key_eqb n slot slot_lt maxGet maxPut). Qed.
+
+  (** get_sound: a lookup returns only a location that was stored for exactly
+      that key (never another key's), lying in a block that has not been
+      released. *)
+  Theorem get_sound : forall h0 h s k l,
+    run (klm_empty key n h0) h = Some s -> lookup s k = Some l ->
+    In (OPut k l) h /\ valid (lo s) (hi s) l = true.
+  Proof. exact (get_sound_thm key key_eqb key_eqb_spec n slot maxGet maxPut). Qed.
+
+  (** release_exact: releasing a block removes exactly the entries that point
+      into it: every lookup is what it was, filtered by the new block window. *)
+  Theorem release_exact : forall s k,
+    Reachable s ->
+    lookup (klm_release key s) k
+    = match lookup s k with
+      | Some l => if valid (N.succ (lo s)) (hi s) l then Some l else None
+      | None => None
+      end.
+  Proof. exact (release_exact_thm key key_eqb key_eqb_spec n slot slot_lt maxGet maxPut). Qed.
+
+  (** Adding a block changes no lookup. *)
+  Theorem grow_frame : forall s k, Reachable s -> lookup (klm_grow key s) k = lookup s k.
+  Proof. exact (grow_frame_thm key key_eqb n slot slot_lt maxGet maxPut). Qed.
+
+  (** victim_not_newer: the record a Put reports as discarded (TooManyAttempts
+      outcome / too_many_iterations counter) is never newer than the entry
+      being stored.  (Any table, not only reachable ones.) *)
+  Theorem victim_not_newer : forall lo hi t k l t' o d,
+    put lo hi t k l = (t', o) -> discarded o = Some d -> older l (rloc d) = false.
+  Proof. exact (victim_not_newer_thm key key_eqb slot maxGet maxPut). Qed.
+End C06.
+
+Print Assumptions invariant_initial.
+Print Assumptions invariant_put.
+Print Assumptions invariant_release.
+Print Assumptions invariant_grow.
+Print Assumptions invariant_reachable.
+Print Assumptions get_sound.
+Print Assumptions release_exact.
+Print Assumptions grow_frame.
+Print Assumptions victim_not_newer.
